@@ -293,8 +293,9 @@ pub fn classify(p: &Prog, arg: &Arg, j: &Judged, cx: &mut Cx) -> Option<&'static
         let src = p.render(&arg.src, &Repair { unfold_rec: true, ..Default::default() });
         if src != plain {
             let r = judge_sync(&src, cx);
-            // the unfolded program must still be ACCEPTED (a rejection would prove nothing)
-            if r.kind.accepted() && !r.kind.fails() {
+            // the unfolded program runs fine — or, when the original got *stuck*, the unfolded one
+            // is rejected (the access that got stuck only type-checked on the mis-resolved type)
+            if (r.kind.accepted() && !r.kind.fails()) || (r.kind == Kind::Rejected && matches!(j.kind, Kind::Stuck(_))) {
                 return Some(SIG_REC_BACKREF);
             }
         }
